@@ -612,3 +612,89 @@ def r08_7(ctx):
             else:
                 ctx.bad(f"{short}|zero-checksum-emitted", f"{short} stores the complemented sum as it is: when it computes to 0 the datagram is sent with the 'no checksum' "
                         "value, which receivers of UDP over IPv6 must discard", body=b, bb=x[0])
+
+
+@rule('R18.9', ['C18', 'C13'], floor=1, clause='in the bound state no dispatch returns before the lease expiry was examined: an early "nothing to send yet" return cannot hide an expired lease')
+def r18_9(ctx):
+    from .c18 import D, RS, FDAI
+    F = ctx.F
+    d = ctx.method(D, 'dispatch')
+    an = FDAI(F)
+    skey = (('d', 1), (('f', 'state', D, '-'),))
+    r = an.run(d, {skey: frozenset(['Renewing'])})
+    rets = [b_ for b_ in d.return_blocks() if b_ in d.reachable(edge_ok=r.edge_ok())]
+    ctx.need(rets, "a return of dhcpv4::dispatch reachable in the Renewing state")
+    examined = lambda f: f[0] == 'rel' and (is_field(f[2], RS, 'expires_at') or is_field(f[3], RS, 'expires_at'))
+    ctx.need(guard_edges(F, d, examined), "comparison of expires_at in dhcpv4::dispatch")
+    bad = unguarded(F, d, rets, examined, r.edge_ok())
+    if bad:
+        ctx.bad("dispatch|return-before-expiry-test", "in the bound state dispatch() can return without having compared expires_at with now: while a retry instant lies "
+                "beyond the expiry the lease is not dropped (no Deconfigured event, the address outlives its lease)", body=d, bb=bad[0][0], path=bad[0][1])
+    else:
+        ctx.ok(('dispatch', 'expiry-examined-first'), sample=dict(fn='dhcpv4::dispatch', state='Renewing', every_return_after='expires_at <=> now'))
+
+
+def _deadline_fields(F):
+    """Instant-typed fields whose value flows into a poll_at answer: the deadlines the stack reports to its driver"""
+    out = set()
+    for k, b in sorted(F.bodies.items()):
+        if '::test' in k or not (k.rsplit('::', 1)[-1] == 'poll_at' or 'poll_at::{closure' in k):
+            continue
+        try:
+            r = ret_origin(F, b)
+        except Exception:
+            continue
+        for l in leafs(r):
+            if not l.startswith('F:'):
+                continue
+            adt, fld = l[2:].rsplit('.', 1)
+            a = F.adts.get(adt)
+            for v in (a['variants'] if a else ()):
+                for i, f in enumerate(v['fields']):
+                    if (f['name'] == fld or str(i) == fld) and 'time::Instant' in f['ty']:
+                        out.add(l)
+    return out
+
+
+def _is_now(n, b):
+    n = strip(n)
+    while n[0] in ('ref', 'deref') and len(n) == 2:
+        n = strip(n[1])
+    if n[0] == 'call' and n[1].rsplit('::', 1)[-1] == 'now':
+        return True
+    if n[0] == 'arg' and n[1] < len(b.locals):
+        return 'time::Instant' in b.locals[n[1]]['ty'] and b.locals[n[1]]['ty'].replace('&', '').strip() == 'time::Instant'
+    return False
+
+
+@rule('R13.10', ['C13', 'C02', 'C18', 'C19'], floor=15, clause='a deadline that poll_at reports is due at that very instant: every comparison of such a deadline with the current time splits into `deadline <= now` (act) and `deadline > now` (wait)')
+def r13_10(ctx):
+    F = ctx.F
+    dl = _deadline_fields(F)
+    ctx.need(len(dl) >= 12, f"Instant fields flowing into poll_at (found {len(dl)})")
+    n = 0
+    for k, b in sorted(F.bodies.items()):
+        if '::test' in k or not (b.file or '').startswith('src/'):
+            continue
+        for bi, bl in enumerate(b.blocks):
+            if bl['cl'] or bl['t'][0] != 'switch':
+                continue
+            for tb, lab, f in cond_facts(F, b, bi):
+                if f[0] != 'rel' or f[1] not in ('Lt', 'Gt', 'Le', 'Ge'):
+                    continue
+                a, c, op = f[2], f[3], f[1]
+                if _is_now(a, b) == _is_now(c, b):
+                    continue
+                if _is_now(a, b):
+                    a, c, op = c, a, FLIP[op]
+                hit = sorted(leafs(a) & dl)
+                if not hit or op not in ('Lt', 'Ge'):
+                    if hit and op == 'Le':
+                        n += 1
+                        ctx.ok((k, hit[0], bi), sample=dict(fn=k.split('::', 1)[-1], deadline=hit[0][2:], split='deadline <= now | deadline > now'))
+                    continue
+                if op == 'Lt':
+                    short = k.split('::', 1)[-1].replace("::<'a>", '')
+                    ctx.bad(f"{short}|{hit[0][2:]}|strict-deadline", f"{short} treats the deadline {hit[0][2:]} as due only when it is strictly in the past, while poll_at reports "
+                            "the deadline itself: polled exactly then nothing happens and poll_at keeps answering the same instant (no progress / busy loop)", body=b, bb=bi)
+    ctx.need(n >= 15, f"inclusive deadline comparisons (found {n})")
